@@ -40,6 +40,7 @@
  *   r:<t>:<chan>:<id>:<letter>:<attempt>   report released
  *   n:<t>:<id>   message arrived          b:<t>:<ok|fail>   bounce injection     g:<t>:<sig>   signal     f:<callno>   injected stat fault
  *   i:<t>:<n>    the n-th daemon process starts on the queue (n >= 2: restart)
+ *   q:<id>:<birth>   a message in the queue at start (mtime of info/<id>)
  *   x:<exitcode>:<crashed>:<clock>:<pass0>:<pass1>   end of a daemon; pass<c> = pass[c].id when it exited (a pass cut short by TERM)
  *   x:abort = select budget exhausted (the daemon spins or never stops)
  */
@@ -88,6 +89,7 @@ typedef struct {
   char text[1400];
 } lscen;
 static lscen S;
+static int prerun_world;                /* world_init() for the pre-run: no records */
 
 static hbuf ev;                         /* records of this scenario */
 static char lastrec[600]; static int lastcount;
@@ -182,6 +184,7 @@ static void preload(lmsg *m, int idx) {                /* a message the daemon h
     int fc = sim_mkfile(p, env, n, 7796, 0600); W.ino[fc].atime = W.ino[fc].mtime = T0 + m->due[c];
   }
   m->created = ino;
+  if (!prerun_world) rec(0, "q:%d:%ld", ino, T0 - m->age);
 }
 
 /* ---- the daemon's select: discrete-event clock + snapshot ---- */
@@ -319,7 +322,7 @@ static void run_scenario(void) {
   hbuf_reset(&ev); lastcount = 0;
   int faultcall = 0;
   if (S.sf > 0) {                       /* pre-run up to the first select: which calls of the start-up scan are stat()s? */
-    world_init();
+    prerun_world = 1; world_init(); prerun_world = 0;
     prerun = 1; sim_trace_on = 1; sim_trace.n = 0; term_time = LONG_MAX; term_final = 1;
     run_daemon();
     prerun = 0; sim_trace_on = 0;
